@@ -6,6 +6,7 @@ import RosuModel.Model.Cmds.Frame
 import RosuModel.Model.Cmds.Reader
 import RosuModel.Model.Cmds.Writer
 import RosuModel.Model.Cmds.Codec
+import RosuModel.Model.Cmds.Curve
 import RosuModel.Model.Cmds.Timing
 import RosuModel.Model.Cmds.Sections
 import RosuModel.Model.Cmds.HitObj
@@ -18,6 +19,7 @@ def dispatch (toks : List String) : String :=
     |>.orElse (fun _ => dispatchReader toks)
     |>.orElse (fun _ => dispatchWriter toks)
     |>.orElse (fun _ => dispatchCodec toks)
+    |>.orElse (fun _ => dispatchCurve toks)
     |>.orElse (fun _ => dispatchTiming toks)
     |>.orElse (fun _ => dispatchSections toks)
     |>.orElse (fun _ => dispatchHitObj toks)
